@@ -722,6 +722,40 @@ fn mapping_clamp(ctx: &mut Ctx) {
 		if md.map(lo - dir * d) != md.map(lo) || md.map(hi + dir * d) != md.map(hi) {
 			bad = Some("Decibels mapping does not clamp its input".into());
 		}
+		// every other output type a mapping can have (each has its own `Tweenable` impl): the ends of the input range map to the
+		// ends of the output range, ascending or descending, and the middle lies between them
+		{
+			let mid_in = lo + (hi - lo) * 0.5;
+			let (d0, d1) = (std::time::Duration::from_secs_f64(o0.abs() / 10.0), std::time::Duration::from_secs_f64(o1.abs() / 10.0));
+			let lin = Mapping { input_range: (lo, hi), output_range: (d0, d1), easing: Easing::Linear };
+			let res = crate::props::guarded(|| (lin.map(lo), lin.map(hi), lin.map(mid_in)));
+			match res {
+				Ok((a, b, mid)) => {
+					let near = |x: std::time::Duration, y: std::time::Duration| (x.as_secs_f64() - y.as_secs_f64()).abs() <= 2e-9;
+					let want_mid = std::time::Duration::from_secs_f64((d0.as_secs_f64() + d1.as_secs_f64()) / 2.0);
+					if !near(a, d0) || !near(b, d1) || !near(mid, want_mid) {
+						bad = Some(format!("Mapping<Duration> {:?} -> {:?}: the ends and the middle of the input range map to {:?}, {:?}, {:?} (want {:?}, {:?}, {:?})", d0, d1, a, b, mid, d0, d1, want_mid));
+					}
+				}
+				Err(p) => bad = Some(format!("Mapping<Duration> {:?} -> {:?} panics: {}", d0, d1, p.first().map(|p| p.sig()).unwrap_or_default())),
+			}
+			macro_rules! ends {
+				($name:expr, $mk:expr, $get:expr) => {{
+					let mp = Mapping { input_range: (lo, hi), output_range: ($mk(o0), $mk(o1)), easing: Easing::Linear };
+					let (a, b, mid) = ($get(mp.map(lo)), $get(mp.map(hi)), $get(mp.map(mid_in)));
+					let (w0, w1) = ($get($mk(o0)), $get($mk(o1)));
+					let tol = 1e-5 * (1.0 + w0.abs().max(w1.abs()));
+					if (a - w0).abs() > tol || (b - w1).abs() > tol || (mid - (w0 + w1) / 2.0).abs() > tol {
+						bad = Some(format!("Mapping<{}> {} -> {}: the ends and the middle of the input range map to {}, {}, {}", $name, w0, w1, a, b, mid));
+					}
+				}};
+			}
+			ends!("f32", |v: f64| v as f32, |v: f32| v as f64);
+			ends!("Panning", |v: f64| Panning((v / 50.0) as f32), |v: Panning| v.0 as f64);
+			ends!("PlaybackRate", |v: f64| PlaybackRate(v / 10.0), |v: PlaybackRate| v.0);
+			ends!("Mix", |v: f64| kira::Mix((v.abs() / 50.0) as f32), |v: kira::Mix| v.0 as f64);
+			ends!("Semitones", |v: f64| Semitones(v), |v: Semitones| v.0);
+		}
 		// inside the range the output stays between the endpoints
 		let x = r.f64_in(lo.min(hi), lo.max(hi));
 		let y = m.map(x);
